@@ -348,7 +348,7 @@ def finish(pid, tier, seed, mod, results, problems, nshards, t0, kn):
     for n, v in enumerate(violations):
         path = os.path.join(rpdir, f'{pid}-{tier}-seed{seed}-{n}.json')
         with open(path, 'w') as f:
-            json.dump({'property': pid, 'tier': tier, 'seed': seed, **v}, f, indent=1)
+            json.dump({'property': pid, 'tier': tier, 'seed': seed, 'nshards': nshards, **v}, f, indent=1)
         replay_paths.append(path)
 
     wall = round(time.time() - t0, 2)
@@ -434,18 +434,54 @@ def finish(pid, tier, seed, mod, results, problems, nshards, t0, kn):
     return rc
 
 
-def replay_main(pid, path):
-    env.setup_import()
+def replay_main(pid, path, check_path=None):
+    """Re-execute the workload slice that produced the recorded violation: the same tier, seed, shard and hash seed
+    against the current tree (every choice of a shard is a function of those), then look for the recorded witness.
+    Exit 1 + VIOLATION line if it recurs, 0 if that shard no longer reports it, 2 if the shard could not be run."""
     mod = load_prop(pid)
     case = json.load(open(path))
     fn = getattr(mod, 'replay', None)
-    if fn is None:
-        print(f'[{pid}] no replay support; case follows')
-        print(json.dumps(case, indent=1)[:4000])
-        return 2
-    still = fn(case)
-    if still:
-        print(f'VIOLATION property={pid} replay={path}')
-        return 1
-    print(f'[{pid}] replay: the recorded case no longer violates')
-    return 0
+    if fn is not None:
+        env.setup_import()
+        if fn(case):
+            print(f'VIOLATION property={pid} replay={path}')
+            return 1
+        print(f'[{pid}] replay: the recorded case no longer violates')
+        return 0
+    tier, seed, shard = case.get('tier', 'quick'), int(case.get('seed', 0)), int(case.get('shard', 0))
+    nshards = int(case.get('nshards') or getattr(mod, 'SHARDS', {}).get(tier) or n_workers(tier))
+    scratch = tempfile.mkdtemp(prefix=f'hplmon-replay-{pid}-')
+    try:
+        out = os.path.join(scratch, 'w.json')
+        e = dict(os.environ)
+        e['PYTHONHASHSEED'] = str((shard + seed) % 4)
+        e['PYTHONDONTWRITEBYTECODE'] = '1'
+        e['HPLMON_SCRATCH'] = scratch
+        timeout = getattr(mod, 'TIMEOUT', {}).get(tier, 900 if tier == 'quick' else 5400)
+        cmd = [sys.executable, '-X', f'pycache_prefix={scratch}/pyc', check_path or os.path.join(env.VERIF, 'check'), pid,
+               '--worker', '--tier', tier, '--seed', str(seed), '--shard', str(shard), '--nshards', str(nshards),
+               '--out', out]
+        try:
+            subprocess.run(cmd, env=e, cwd=env.VERIF, timeout=timeout, stdout=subprocess.DEVNULL, stderr=subprocess.DEVNULL)
+        except subprocess.TimeoutExpired:
+            print(f'INCONCLUSIVE property={pid} reason=replay-timeout')
+            return 2
+        if not os.path.exists(out):
+            print(f'INCONCLUSIVE property={pid} reason=replay-shard-crashed')
+            return 2
+        res = json.load(open(out))
+        want = json.dumps(jsonable(case.get('witness')), sort_keys=True)
+        same = [v for v in res.get('violations', []) if v['kind'] == case.get('kind')
+                and json.dumps(jsonable(v['witness']), sort_keys=True) == want]
+        print(f'[{pid}] replay: shard {shard}/{nshards} of tier={tier} seed={seed} re-executed: '
+              f'{res.get("evaluations")} evaluations, {len(res.get("violations", []))} violation(s), '
+              f'{len(same)} identical to the recorded one')
+        if same:
+            w = same[0]['shrunk'] if same[0].get('shrunk') is not None else same[0]['witness']
+            print(f'[{pid}] violation kind={same[0]["kind"]} witness={json.dumps(jsonable(w))[:600]}')
+            print(f'VIOLATION property={pid} replay={path}')
+            return 1
+        print(f'[{pid}] replay: the recorded case no longer violates')
+        return 0
+    finally:
+        shutil.rmtree(scratch, ignore_errors=True)
